@@ -66,7 +66,7 @@ def _affine(calc, mid):
         return (Fraction(0), [(Fraction(1), mid(calc.mod.out_features_masker))])
     if isinstance(calc, FlattenFeaturesCalculator):
         c0, l = _affine(calc.prev, mid)
-        m = Fraction(int(calc.mod.feat_calc_multiplier))
+        m = Fraction(int(getattr(calc.mod, getattr(calc, 'prefix', '') + 'feat_calc_multiplier')))
         return (c0 * m, [(a * m, j) for a, j in l])
     if isinstance(calc, ConcatFeaturesCalculator):
         c0, l = Fraction(0), []
@@ -169,9 +169,7 @@ def pit_case(torch, seed, style):
     dim = rng.choice([1, 1, 2])
     spec = ga.gen(rng, dim=dim, conv_head=True, k1d=list(range(1, 13)))
     o = {'seed': seed, 'style': style, 'arch': ga.describe(spec), 'dim': dim, 'skip': None, 'fails': [], 'specs': {}, 'productions': spec.get('productions', [])}
-    if ga.has_dw_after_cat(spec) or ga.has_add_of_cat(spec):
-        o['skip'] = 'dw-after-cat' if ga.has_dw_after_cat(spec) else 'add-of-cat'
-        return o
+    o['topo'] = 'dw-after-cat' if ga.has_dw_after_cat(spec) else ('add-of-cat' if ga.has_add_of_cat(spec) else None)
     stage = 'build'
     try:
         specs = _specs(dim)
@@ -296,11 +294,10 @@ def pit_case(torch, seed, style):
         stage = 'float64'
         setall(vals0)
         p.double()
-        valsd = {id(q): [float(v) for v in q.detach().flatten()] for _, q in nas}
         for which in names:
             shared = specs[which].shared
             maskers, layers = extract(p, which, shared)
-            lit = coq_net(maskers, layers, which, lambda t: valsd[id(t)])
+            lit = coq_net(maskers, layers, which, lambda t: [float(v) for v in t.detach().flatten()])   # alpha/beta/gamma attribute: Parameter or (frozen) buffer
             c = p.get_cost(which)
             plist = pid_params(maskers, layers)
             uniq = list({id(t): t for t in plist}.values())
